@@ -1,10 +1,10 @@
 // ---- prelude/mountflags.rs: rustix::mount flag types (bitflags! models; kernel values) -----------
 #[derive(Clone, Copy)]
 pub struct FsOpenFlags { pub bits: u32 }
-impl FsOpenFlags { pub const FSOPEN_CLOEXEC: FsOpenFlags = FsOpenFlags { bits: 1 }; }
+impl FsOpenFlags { pub const FSOPEN_CLOEXEC: FsOpenFlags = FsOpenFlags { bits: 1 }; pub fn empty() -> (r: FsOpenFlags) ensures r.bits == 0 { FsOpenFlags { bits: 0 } } }
 #[derive(Clone, Copy)]
 pub struct FsMountFlags { pub bits: u32 }
-impl FsMountFlags { pub const FSMOUNT_CLOEXEC: FsMountFlags = FsMountFlags { bits: 1 }; }
+impl FsMountFlags { pub const FSMOUNT_CLOEXEC: FsMountFlags = FsMountFlags { bits: 1 }; pub fn empty() -> (r: FsMountFlags) ensures r.bits == 0 { FsMountFlags { bits: 0 } } }
 #[derive(Clone, Copy)]
 pub struct MountAttrFlags { pub bits: u32 }
 impl MountAttrFlags {
